@@ -1643,14 +1643,22 @@ class Interp(Analyzer):
                 if body.blocks[v].stmts or not any(e[1] == v for e in self.entry_ret_edges):
                     self.entry_ret_edges.append((v, v, ret_states[v]))
         ret = None
-        groups = {}
+        # exits are joined per variant of the returned Result / Option first (all Ok exits together, all Err exits together):
+        # facts common to the exits of one variant are then established on full states and become that variant's guard
+        by_ret = {}
         for bb in sorted(ret_states):
-            groups.setdefault(variant_signature(ret_states[bb], frame.id), []).append(ret_states[bb])
-        for sig in sorted(groups, key=repr):
-            g = None
-            for es in groups[sig]:
-                g = es if g is None else join_states(self, g, es, frame.id, 10**6, False)[0]
-            ret = g if ret is None else join_states(self, ret, g, frame.id, 10**6, False)[0]
+            sig = variant_signature(ret_states[bb], frame.id)
+            r0 = tuple(x for x in sig if x[0] == 0)
+            by_ret.setdefault(r0, {}).setdefault(sig, []).append(ret_states[bb])
+        for r0 in sorted(by_ret, key=repr):
+            gr = None
+            groups = by_ret[r0]
+            for sig in sorted(groups, key=repr):
+                g = None
+                for es in groups[sig]:
+                    g = es if g is None else join_states(self, g, es, frame.id, 10**6, False)[0]
+                gr = g if gr is None else join_states(self, gr, g, frame.id, 10**6, False)[0]
+            ret = gr if ret is None else join_states(self, ret, gr, frame.id, 10**6, False)[0]
         return ret
 
     # ------------------------------------------------------------------ entry
